@@ -43,6 +43,7 @@ type rt struct {
 	main *leanhelix.MainLoop
 	me   primitives.MemberId
 
+	hung   int32 // set once an API call was seen blocking
 	seq    int64
 	mu     sync.Mutex
 	events []rtEvent
@@ -265,6 +266,7 @@ func (r *rt) deliver(raw *interfaces.ConsensusRawMessage, what string) {
 	r.main.HandleConsensusMessage(ctx, raw)
 	if ctx.Err() != nil {
 		r.log("api.msg.blocked", obj{"what": what, "ms": int(time.Since(t0) / time.Millisecond)})
+		atomic.StoreInt32(&r.hung, 1)
 	}
 }
 
@@ -396,6 +398,9 @@ func (r *rt) updateState(ctx context.Context, b int, who string) {
 		}
 	}
 	r.log("api.update.return", obj{"b": b, "who": who, "ok": err == nil, "ms": int(time.Since(t0) / time.Millisecond), "blocked": timedOut})
+	if timedOut {
+		atomic.StoreInt32(&r.hung, 1)
+	}
 }
 
 func (r *rt) releaseSome(all bool) {
@@ -479,6 +484,50 @@ type rtParams struct {
 	cancelAt  int // op index at which Run's context is cancelled (-1: only at the end)
 	garbage   bool
 	realTimer bool
+	churn     int  // rounds of (election, commit in the next view) after the probe
+	panicSync bool // the cancellation comes from inside a consumer block whose Height() then panics in the main loop
+}
+
+// panicBlock: a consumer block whose Height() cancels Run's context and panics (once) - a crash of consumer code
+// on the main-loop goroutine that coincides with shutdown
+type panicBlock struct {
+	vBlock
+	once sync.Once
+	f    func()
+}
+
+func (b *panicBlock) Height() primitives.BlockHeight {
+	fire := false
+	b.once.Do(func() { fire = true })
+	if fire {
+		b.f()
+		panic("verif: consumer block panics while the node is being shut down")
+	}
+	return b.vBlock.Height()
+}
+
+// flood: more messages than the worker's inbox holds while the worker sits inside a consumer call
+func (r *rt) flood() {
+	if len(r.blockedSnapshot()) == 0 {
+		return
+	}
+	h, v := r.hvAbs()
+	if h <= 0 {
+		return
+	}
+	raw := r.adv.mkP(ref(protocol.LEAN_HELIX_PREPARE, uint64(h), uint64(v), r.peerBlock(uint64(h), 0)), r.cl.ids[r.cl.nMembers], "")
+	r.log("driver.flood", obj{"n": 1100, "blocked": r.blockedSnapshot()})
+	for i := 0; i < 1100; i++ {
+		ctx, cancel := context.WithTimeout(context.Background(), 2*time.Second)
+		r.main.HandleConsensusMessage(ctx, raw)
+		blocked := ctx.Err() != nil
+		cancel()
+		if blocked {
+			r.log("api.msg.blocked", obj{"what": "flood", "ms": 2000})
+			atomic.StoreInt32(&r.hung, 1)
+			return
+		}
+	}
 }
 
 func runRuntime(p rtParams, runId int) []rtEvent {
@@ -504,7 +553,15 @@ func runRuntime(p rtParams, runId int) []rtEvent {
 	doCancel := func() {
 		if !cancelled {
 			cancelled = true
-			r.log("api.cancel", obj{"blocked": r.blockedSnapshot()})
+			r.log("api.cancel", obj{"blocked": r.blockedSnapshot(), "panicsync": p.panicSync})
+			if p.panicSync {
+				h, _ := r.hvAbs()
+				pb := &panicBlock{vBlock: vBlock{height: uint64(h + 1), body: "panics"}, f: cancel}
+				c2, cancel2 := context.WithTimeout(ctx, 2*time.Second)
+				r.main.UpdateState(c2, pb, nil)
+				cancel2()
+				pb.once.Do(func() {}) // the main loop never looked at it: plain cancellation
+			}
 			cancel()
 		}
 	}
@@ -524,10 +581,34 @@ func runRuntime(p rtParams, runId int) []rtEvent {
 			}
 		}
 	}()
+	// two more observers read State() back to back and log only when what they see changes: a pair that was
+	// never the node's state (height of one moment, view of another) shows up as a step backwards
+	for _, name := range []string{"spin1", "spin2"} {
+		name := name
+		wg.Add(1)
+		go func() {
+			defer wg.Done()
+			lh, lv := -1, -1
+			for {
+				select {
+				case <-stopSampler:
+					return
+				default:
+				}
+				for k := 0; k < 64; k++ {
+					if h, v := r.hvAbs(); h != lh || v != lv {
+						lh, lv = h, v
+						r.log("sample", obj{"obs": name, "h": h, "v": v})
+					}
+				}
+				runtime.Gosched()
+			}
+		}()
+	}
 	r.updateState(ctx, 0, "driver") // start: sync with genesis
-	maxB := 0
+	maxB, floods := 0, 0
 	for i := 0; i < p.ops; i++ {
-		if i == p.cancelAt {
+		if i == p.cancelAt || atomic.LoadInt32(&r.hung) != 0 { // an API call that blocked has been reported: nothing more to learn from this run
 			doCancel()
 			break
 		}
@@ -565,6 +646,9 @@ func runRuntime(p rtParams, runId int) []rtEvent {
 			raw, name := r.garbage(rnd)
 			r.log("driver.garbage", obj{"tmpl": name})
 			r.deliver(raw, "garbage")
+		case x < 93 && x >= 90 && p.garbage && floods < 2:
+			floods++
+			r.flood()
 		case x < 90 && p.garbage:
 			b := r.peerBlock(1, 0)
 			ev := []uint64{1 << 63, 1<<63 + 1, math.MaxUint64}[rnd.Intn(3)]
@@ -635,6 +719,16 @@ func runRuntime(p rtParams, runId int) []rtEvent {
 		}
 		hh, vv := r.hvAbs()
 		r.log("probe", obj{"from": h0, "h": hh, "v": vv, "progressed": progressed, "blocked": r.blockedSnapshot()})
+		// churn: heights that close in a view above 0, for the observers of State() (a torn (height, view) pair needs one)
+		for round := 0; progressed && round < p.churn; round++ {
+			c1 := atomic.LoadInt64(&r.commitCount)
+			r.fireElection(false)
+			for it := 0; it < 60 && atomic.LoadInt64(&r.commitCount) == c1; it++ {
+				r.releaseEverything()
+				r.traffic()
+				time.Sleep(200 * time.Microsecond)
+			}
+		}
 	}
 	doCancel()
 	t0 := time.Now()
@@ -693,9 +787,10 @@ func cmdRuntime(args []string) int {
 			continue
 		}
 		rnd := newRand(*seed*7919 + int64(i))
-		p := rtParams{seed: *seed*7919 + int64(i), ops: *ops, cancelAt: -1, garbage: i%2 == 0, realTimer: i%2 == 1}
+		p := rtParams{seed: *seed*7919 + int64(i), ops: *ops, cancelAt: -1, garbage: i%2 == 0, realTimer: i%2 == 1, churn: 15}
 		if i%3 == 0 {
 			p.cancelAt = rnd.Intn(*ops) // cancellation injected at a random point of the run
+			p.panicSync = i%4 == 1
 		}
 		evs := runRuntime(p, i)
 		for _, e := range evs {
